@@ -44,7 +44,7 @@ Known(s, j)  == j \in JobIds(s)
 Run(j, t) == st.runs[j][t]
 OkFor(j, d) == Run(j, d).outcome = "ok" \/ (Run(j, d).outcome = "fail" /\ V(j).tasks[d].allow)
 FailedHard(j, t) == Run(j, t).outcome = "fail" /\ ~V(j).tasks[t].allow
-UserCause(j) == st.ack[j].n > 0 \/ st.ack[j].req > 0 \/ st.shut # "no"
+UserCause(j) == st.ack[j].n > 0 \/ st.ack[j].req > 0 \/ st.shut # "no" \/ st.stop[j].byShutdown
 
 BecameStarted(j) == Quiet /\ st.jobs[j].started /\ ~(Known(pre, j) /\ pre.jobs[j].started)
 
